@@ -28,7 +28,9 @@ PROOFS = ["proofs/RaceProofs.v", "proofs/RaceHBProofs.v", "lib/Race.v", "lib/Rac
           "models/RaceTasks.v", "proofs/RaceTasksProofs.v",
           # Flag / AddIf64 (Atomics.v, stepped by C17) and loom.Mutex (MutexWord.v mx_step) labelled
           "models/RaceAtomics.v", "proofs/RaceAtomicsProofs.v",
-          "models/RaceMutex.v", "proofs/RaceMutexProofs.v"]
+          "models/RaceMutex.v", "proofs/RaceMutexProofs.v",
+          # taskx.Queue (TaskQueue.v tq_gstep, the machine C09 replays) labelled: producers, consumer, closer, Get2 waiters
+          "models/RaceTaskQueue.v", "proofs/RaceTaskQueueStruct.v", "proofs/RaceTaskQueueProofs.v"]
 
 
 def coq_table():
